@@ -1612,6 +1612,10 @@ class ScopeStack:
                             try:
                                 producer = self.scopes[tuple(location)]
                                 if isinstance(producer.template, Component) is False:
+                                    # VV: The location maps to a workflow, it cannot be the producer of a file. Trim one
+                                    # level otherwise this loop never terminates
+                                    producer = None
+                                    location = location[:-1]
                                     continue
                                 break
                             except KeyError:
